@@ -26,6 +26,22 @@ HARNESSES = [Harness('s_c19', ['harness/s_c19.cc'],
 HARNESS_ENV = {'ASAN_OPTIONS': 'detect_leaks=0:abort_on_error=0:exitcode=99:allocator_may_return_null=1:symbolize=0',
                'UBSAN_OPTIONS': 'print_stacktrace=0:halt_on_error=1:exitcode=98:symbolize=0'}
 H = 's_c19'
+import importlib, os
+SUBS = [importlib.import_module('props.' + n) for n in ('c19_race',) if os.path.exists(os.path.join(os.path.dirname(__file__), n + '.py'))]
+for _m in SUBS:
+    LEAN_TARGETS = LEAN_TARGETS + list(_m.LEAN_TARGETS)
+    THEOREMS = THEOREMS + list(_m.THEOREMS)
+    HARNESSES = HARNESSES + [h for h in _m.HARNESSES if h.name not in {x.name for x in HARNESSES}]
+    GEN = GEN + [g for g in (_m.GEN or []) if g not in GEN]
+
+
+def _sub(case):
+    w = case.line.split()[0] if case.line.split() else ''
+    for m in SUBS:
+        if w in m.WORDS:
+            return m
+    return None
+
 RULE = ('validators: every byte value in first and in later position, lengths 0..300 with the boundaries 254/255/256 and 62/63/64, NUL and '
         '>=0x80 bytes, all in exact-size unterminated buffers; views: 1-4 registered views (type x pattern/exact/wildcard name x unit x meter '
         'name/version/schema selectors x name/description/aggregation (type and histogram boundaries)/attribute filter) against 1-4 instruments of all six ABI-v1 types, valid '
@@ -198,6 +214,23 @@ def spec_sc(line):
 
 
 def oracle(case, out):
+    m = _sub(case)
+    if m:
+        return m.oracle(case, out)                     # the sub-check has its own malformed stream
+    return _oracle(case, out)
+
+
+def model_line(case, out):
+    m = _sub(case)
+    return m.model_line(case, out) if m and hasattr(m, 'model_line') else case.line
+
+
+def agree(case, out, mout):
+    m = _sub(case)
+    return m.agree(case, out, mout) if m and hasattr(m, 'agree') else out == mout
+
+
+def _oracle(case, out):
     t = case.line.split()
     if out.startswith('CRASH'):
         return ('no-out-of-bounds-read-or-crash', out)
@@ -253,6 +286,9 @@ def oracle(case, out):
 
 
 def signature(case, out, clause):
+    m = _sub(case)
+    if m and hasattr(m, 'signature'):
+        return m.signature(case, out, clause)
     t = case.line.split()
     if clause == 'no-out-of-bounds-read-or-crash':
         kind = ':'.join(out.split()[1].split(':')[:2]) if len(out.split()) > 1 else 'crash'
@@ -267,6 +303,9 @@ def signature(case, out, clause):
 
 
 def nontrivial(case, out):
+    m = _sub(case)
+    if m and hasattr(m, 'nontrivial'):
+        return m.nontrivial(case, out)
     t = case.line.split()
     if t[0] in ('val', 'val2'):
         return t[2] != '-'
@@ -312,7 +351,7 @@ def corpus():
     # D09 (witness) / D22 (finding)
     c(f'mv m {hx(b"m")} - - 1 ; v c {hx(b"*")} - - - - {hx(b"first")} - - sum * - ; v c {hx(b"reqs")} - - - - {hx(b"second")} - - sum * - ; i c l {hx(b"reqs")} - -', 'D09')
     c(f'mv m {hx(b"m")} - - 1 ; v oc {hx(b"*")} - - - - - - - def {hx(b"a")} - ; i oc l {hx(b"obs")} - -', 'D22')
-    return out
+    return out + [c for m in SUBS for c in m.corpus()]
 
 
 # ------------------------------------------------------------------------------------------------
@@ -534,7 +573,7 @@ def generate(rng, tier):
     # the same validator strings go to the hand-written variants in the second TU
     vals2 = [Case('val2' + c.line[3:], 's_c19b', ('val2',) + c.tags[1:]) for c in vals]
     mv, d22 = gen_mv(rng, big)
-    return vals + vals2 + mv + gen_sc(rng, big) + d22
+    return vals + vals2 + mv + gen_sc(rng, big) + d22 + [c for m in SUBS for c in m.generate(rng, tier)]
 
 
 LEVEL_TEXT = ('Lean 4 theorems over executable models of instrument_metadata_validator.cc, the view registry / predicates / selectors, '
@@ -550,3 +589,7 @@ LEVEL_NOTE = ('Trusted: Lean kernel; axioms propext/Quot.sound/Classical.choice 
               'out-of-bounds reads are excluded by sanitizer runs on exact-size buffers, not by a theorem.')
 DESIGN_REF = 'DESIGN.md section 4, C19'
 TECHNIQUE = 'Lean 4 proof + differential correspondence'
+for _m in SUBS:
+    RULE = RULE + ' | ' + getattr(_m, 'RULE', '')
+    LEVEL_TEXT = LEVEL_TEXT + getattr(_m, 'LEVEL_TEXT_ADD', '')
+    LEVEL_NOTE = LEVEL_NOTE + getattr(_m, 'LEVEL_NOTE_ADD', '')
